@@ -68,7 +68,17 @@ struct ScriptedSource {
         exhausted = true;
         return (unsigned char) mix64(fallback_seed, i);
     }
-    void serve(unsigned char *out, size_t n) { for (size_t i = 0; i < n; i++) out[i] = byte_at(pos + i); pos += n; }
+    void serve(unsigned char *out, size_t n) {
+        if (n > ((size_t) 1 << 28)) {
+            // a giant request (thorough tier): only the first and the last 4 KiB are actually written, the rest of the
+            // caller's (lazily mapped) buffer is left alone; what matters is how many bytes were ASKED for
+            for (size_t i = 0; i < 4096; i++) { out[i] = byte_at(pos + i); out[n - 4096 + i] = byte_at(pos + n - 4096 + i); }
+            pos += n;
+            return;
+        }
+        for (size_t i = 0; i < n; i++) out[i] = byte_at(pos + i);
+        pos += n;
+    }
 };
 
 extern ScriptedSource g_src;
